@@ -499,7 +499,7 @@ int main(int argc, char **argv) {
         if (T) { c04_phase(5, 1, 0, true); c04_phase(5, 2, 0, false); c04_phase(5, 2, 0.5, false); c04_phase(3, 3, 0, true); c04_phase(4, 3, 0, false); c04_phase(4, 3, 3, false); }
     } else if (PROP == "C05") {
         c05_bends(T ? 4 : 2);
-        for (double pen : {0.5, 2.0, 10.0}) { c05_phase(4, 1, pen, false); c05_phase(4, 2, pen, false); }
+        for (double pen : {0.5, 1.0, 2.0, 3.0, 10.0}) { c05_phase(4, 1, pen, false); c05_phase(4, 2, pen, false); }   // 1 and 3 cells: exact ties between "one more bend" and "k more cells"
         c05_phase(3, 1, 2, true); c05_phase(4, 1, 2, true);
         if (T) { for (double pen : {0.5, 2.0, 10.0}) c05_phase(5, 2, pen, false); c05_phase(5, 3, 2, false); c05_phase(4, 2, 2, true); c05_phase(4, 2, 0.5, true); }
     } else { fprintf(stderr, "need --prop C03|C04|C05\n"); return 3; }
